@@ -575,3 +575,163 @@ Proof.
   - apply body_register; assumption.
   - apply body_revise; assumption.
 Qed.
+
+(* ------------------------------------------------------------------ frames *)
+(* ---- non-empty bodies *)
+Definition ne (w : W) : Prop := forall x, w = Some x -> x <> [].
+Lemma ne_None : ne None. Proof. intros x H. discriminate. Qed.
+Lemma ne_pack_u : forall n z, ne (pack_u (S n) z).
+Proof. intros n z x H. unfold pack_u in H. destruct (_ && _); [|discriminate]. injection H as <-. cbn [be_bytes]. intro E. apply app_eq_nil in E. destruct E; discriminate. Qed.
+Lemma ne_pack_s : forall n z, ne (pack_s (S n) z).
+Proof. intros n z x H. unfold pack_s in H. destruct (_ && _); [|discriminate]. injection H as <-. cbn [be_bytes]. intro E. apply app_eq_nil in E. destruct E; discriminate. Qed.
+Lemma ne_cat_l : forall a b, ne a -> ne (a +++ b).
+Proof. intros a b Ha x H. apply cat_Some in H. destruct H as (p & q & Hp & Hq & ->). intro E. apply app_eq_nil in E. destruct E as [E _]. exact (Ha _ Hp E). Qed.
+Lemma ne_if : forall (c : bool) a b, ne a -> ne b -> ne (if c then a else b).
+Proof. destruct c; auto. Qed.
+
+Lemma send_body_nonempty : forall pv r b, send_body pv r = Some b -> r <> Options -> b <> [].
+Proof.
+  intros pv r b H Hr. revert b H. change (ne (send_body pv r)).
+  destruct r; cbn [send_body]; try congruence;
+  repeat first [ apply ne_None | apply ne_pack_u | apply ne_pack_s | apply ne_if | apply ne_cat_l ].
+Qed.
+
+Lemma bytesmap_nonempty : forall m b, write_bytesmap m = Some b -> b <> [].
+Proof. intros m. change (ne (write_bytesmap m)). apply ne_cat_l. apply ne_pack_u. Qed.
+
+Ltac inv_cat2 H :=
+  match type of H with
+  | cat _ _ = Some _ =>
+      let x := fresh "b" in let y := fresh "b" in let Hx := fresh "Hw" in let Hy := fresh "Hw" in
+      apply cat_Some in H; destruct H as (x & y & Hx & Hy & ->); inv_cat2 Hx; inv_cat2 Hy
+  | _ => inv_leaf H
+  end.
+(* ---- header *)
+Lemma pack_u_length : forall n z x, pack_u n z = Some x -> length x = n.
+Proof. intros n z x H. unfold pack_u in H. destruct (_ && _); [|discriminate]. injection H as <-. apply be_bytes_length. Qed.
+Lemma pack_s_length : forall n z x, pack_s n z = Some x -> length x = n.
+Proof. intros n z x H. unfold pack_s in H. destruct (_ && _); [|discriminate]. injection H as <-. apply be_bytes_length. Qed.
+
+Definition header_size (pv : Z) : nat := if pv <? 3 then 8%nat else 9%nat.
+
+Lemma rt_header : forall pv fl st op n hdr body, supported pv = true -> 0 <= n ->
+  write_header pv fl st op n = Some hdr ->
+  p_header (hdr ++ body) = Some ({| h_version := pv; h_flags := fl; h_stream := st; h_opcode := op; h_length := n |}, body)
+  /\ length hdr = header_size pv.
+Proof.
+  intros pv fl st op n hdr body Hs Hn H. unfold write_header in H. unfold p_header, header_size.
+  all_versions Hs; cbv iota in *; inv_cat2 H; rewrite <- ?app_assoc; cbn [app];
+  (split; [ step; ev_pv 1; ev_pv 2; ev_pv 3; ev_pv 4; ev_pv 5; ev_pv 6; ev_pv 65; ev_pv 66; cbn [negb]; cbv iota; step;
+            (erewrite bind_step by (eapply rt_pack_s; [lia|eassumption])); step; step;
+            destruct (Z.ltb_spec n 0); [lia|reflexivity]
+          | rewrite !app_length;
+            repeat match goal with
+                   | Hx : write_byte _ = Some ?x |- _ => rewrite (pack_u_length _ _ _ Hx); clear Hx
+                   | Hx : write_int _ = Some ?x |- _ => rewrite (pack_s_length _ _ _ Hx); clear Hx
+                   | Hx : pack_s _ _ = Some ?x |- _ => rewrite (pack_s_length _ _ _ Hx); clear Hx
+                   end; reflexivity ]).
+Qed.
+
+Lemma frame_flags_bits : forall hp c t b,
+  let fl := Z.lor (Z.lor (Z.lor (flag_if hp c_CUSTOM_PAYLOAD_FLAG) (flag_if c c_COMPRESSED_FLAG)) (flag_if t c_TRACING_FLAG))
+                  (flag_if b c_USE_BETA_FLAG) in
+  bit fl 0 = c /\ bit fl 1 = t /\ bit fl 2 = hp /\ bit fl 4 = b.
+Proof. destruct hp, c, t, b; vm_compute; repeat split. Qed.
+
+Lemma len_eqb : forall {A} (l : list A), (Z.of_nat (length l) =? len l) = true.
+Proof. intros. unfold len. apply Z.eqb_refl. Qed.
+
+Section Frame.
+  Variable compressor : option (bytes -> bytes).
+  Variable decompress : list Z -> option (list Z).
+  Hypothesis decompress_compress : forall c x, compressor = Some c -> decompress (c x) = Some x.
+
+  Theorem frame_wellformed : forall pv e r bs, supported pv = true -> session_ok pv r = true ->
+    encode_message pv compressor e r = Some bs ->
+    (exists h body, p_header bs = Some (h, body) /\ h_length h = len body /\ h_version h = pv /\ h_opcode h = opcode r
+                    /\ length bs = (header_size pv + length body)%nat)
+    /\ spec_parse decompress bs = Some (canon pv (is_some compressor) e r (body_nonempty e r)).
+  Proof.
+    intros pv e r bs Hs Hok H. unfold encode_message in H.
+    destruct (negb (is_nil (e_payload e)) && (pv <? 4)) eqn:Epl; [discriminate|].
+    destruct ((if negb (is_nil (e_payload e)) then write_bytesmap (e_payload e) else wnil) +++ send_body pv r) as [body0|] eqn:Eb; [|discriminate].
+    apply cat_Some in Eb. destruct Eb as (pl & sb & Hpl & Hsb & ->).
+    apply cat_Some in H. destruct H as (hdr & body' & Hh & Hraw & ->). apply raw_Some in Hraw.
+    rewrite <- Hraw in Hh. pose proof (len_nonneg body') as Hn.
+    destruct (rt_header _ _ _ _ _ _ body' Hs Hn Hh) as [Hph Hlen].
+    split.
+    { eexists _, body'. split; [exact Hph|]. cbn [h_length h_version h_opcode]. repeat split. rewrite app_length, Hlen. reflexivity. }
+    unfold spec_parse. rewrite Hph. cbn [h_length h_version h_flags h_opcode h_stream].
+    rewrite len_eqb. cbn [negb]. cbv iota.
+    set (hp := negb (is_nil (e_payload e))) in *.
+    set (cmp := negb (pv_has_checksumming_support pv) && is_some compressor && negb (is_nil (pl ++ sb))) in *.
+    destruct (frame_flags_bits hp cmp (e_tracing e) (e_beta e)) as (B0 & B1 & B2 & B4).
+    rewrite B0, B1, B2, B4.
+    (* the body is non-empty unless this is a bare OPTIONS *)
+    assert (Hne : negb (is_nil (pl ++ sb)) = body_nonempty e r).
+    { unfold body_nonempty. fold hp. destruct hp eqn:Ehp.
+      - cbn [orb]. pose proof (bytesmap_nonempty _ _ Hpl). destruct pl; [congruence|reflexivity].
+      - apply wnil_Some in Hpl. subst pl. cbn [app orb].
+        destruct r; try (pose proof (send_body_nonempty _ _ _ Hsb) as X; destruct sb; [exfalso; apply X; [congruence|reflexivity]|reflexivity]).
+        cbn [send_body] in Hsb. apply wnil_Some in Hsb. subst. reflexivity. }
+    assert (Hc56 : cmp && ((pv =? 5) || (pv =? 6)) = false).
+    { subst cmp. clear -Hs. apply supported_cases in Hs.
+      destruct Hs as [->|[->|[->|[->|[->|[->|[->| ->]]]]]]]; try (rewrite andb_false_r; reflexivity); reflexivity. }
+    rewrite Hc56.
+    assert (Hdec : (if cmp then decompress body' else @Some (list Z) body') = Some (pl ++ sb)).
+    { subst body'. destruct compressor as [c|] eqn:Ec.
+      - fold cmp. destruct cmp; [apply (decompress_compress c); reflexivity|reflexivity].
+      - subst cmp. cbn [is_some]. rewrite andb_false_r. reflexivity. }
+    rewrite Hdec.
+    assert (Hwp : hp && (4 <=? pv) = hp).
+    { destruct hp; [|reflexivity]. cbn [andb] in *. destruct (Z.ltb_spec pv 4); [discriminate|]. apply Z.leb_le. lia. }
+    rewrite Hwp.
+    assert (Hpay : p_if hp p_bytesmap (pl ++ (sb ++ [])) = Some (if is_nil (e_payload e) then None else Some (e_payload e), sb ++ [])).
+    { subst hp. destruct (is_nil (e_payload e)); cbn [negb] in *.
+      - apply wnil_Some in Hpl. subst. reflexivity.
+      - apply p_if_true. apply rt_bytesmap. exact Hpl. }
+    rewrite <- (app_nil_r sb) at 1. rewrite (bind_step _ _ _ _ _ Hpay).
+    rewrite (bind_step _ _ _ _ _ (rt_body _ _ _ [] Hs Hok Hsb)).
+    unfold ret, canon. f_equal. f_equal.
+    subst cmp. rewrite Hne. destruct (pv_has_checksumming_support pv), (is_some compressor), (body_nonempty e r); reflexivity.
+  Qed.
+End Frame.
+
+(* ---- rejection of what a version cannot carry *)
+Lemma cat_None_r : forall a, a +++ None = None.
+Proof. destruct a; reflexivity. Qed.
+
+Lemma qparams_rejects : forall pv m, supported pv = true -> qmsg_unsupported pv m = true -> write_query_params pv m = None.
+Proof.
+  intros pv m Hs H. unfold qmsg_unsupported, qmsg_unsupported_nk in H. unfold write_query_params.
+  all_versions Hs;
+  destruct (truthy_z (q_serial m)), (truthy_z (q_fetch m)), (truthy_b (q_paging_state m)), (q_cpo m), (q_keyspace m);
+  cbn [is_some andb orb negb] in *; try discriminate H; reflexivity.
+Qed.
+
+Lemma execute_rejects : forall pv m, supported pv = true -> qmsg_unsupported_nk pv m = true -> execute_write_query_params pv m = None.
+Proof.
+  intros pv m Hs H. unfold execute_write_query_params.
+  destruct (pv =? 1) eqn:E1; [|apply qparams_rejects; [assumption|unfold qmsg_unsupported; rewrite H; apply orb_true_r]].
+  apply Z.eqb_eq in E1. subst pv. unfold qmsg_unsupported_nk in H. ev_pv 1.
+  destruct (truthy_z (q_serial m)), (truthy_z (q_fetch m)), (truthy_b (q_paging_state m)), (q_cpo m), (q_keyspace m);
+  cbn [is_some andb orb negb] in *; try discriminate H; try reflexivity.
+Qed.
+
+Theorem frame_rejects : forall pv compressor e r, supported pv = true -> carries_unsupported pv e r = true ->
+  encode_message pv compressor e r = None.
+Proof.
+  intros pv compressor e r Hs H. unfold carries_unsupported in H. unfold encode_message.
+  destruct (negb (is_nil (e_payload e)) && (pv <? 4)); [reflexivity|]. cbn [orb] in H.
+  assert (Hb : send_body pv r = None).
+  { destruct r; try discriminate H; cbn [send_body].
+    - rewrite (qparams_rejects _ _ Hs H). apply cat_None_r.
+    - rewrite H. reflexivity.
+    - rewrite (execute_rejects _ _ Hs H). rewrite cat_None_r. apply cat_None_r.
+    - apply orb_prop in H. destruct H as [H|H].
+      + all_versions Hs; cbv iota; rewrite ?andb_false_r in H; try discriminate H;
+        rewrite andb_true_r in H; destruct keyspace; try discriminate H; cbn [is_some andb negb];
+        rewrite ?orb_true_r; cbv iota; rewrite ?cat_None_r; reflexivity.
+      + all_versions Hs; cbn [andb] in H; try discriminate H; cbv iota; rewrite H; rewrite ?cat_None_r; reflexivity. }
+  rewrite Hb, cat_None_r. reflexivity.
+Qed.
